@@ -43,6 +43,10 @@ impl SnmpPriv for DesKey {
             .copy_from_slice(&key[ENC_KEY_LENGTH..KEY_LENGTH]);
         let mut rng = rand::rng();
         self.salt_value = rng.random();
+        #[cfg(feature = "verif")]
+        {
+            self.salt_value = crate::verif::rng_override(self.salt_value as u64) as u32;
+        }
         Ok(())
     }
     fn has_priv(&self) -> bool {
